@@ -116,8 +116,85 @@ Fixpoint tiles (cur e : Z) (rs : list Z) (fuel : nat) : bool :=
       end
   end.
 
+(* RE-USE of iterator values (modes 2 and 3 of stream c20_batch): whatever was done with an iter.Seq
+   value before - ranged to its end, left with break, ranged inside another traversal - ranging over
+   it yields the whole partition again. *)
+
+(* a traversal that was left early: the ranges so far are non-empty, start at cur and follow each other *)
+Fixpoint tiles_prefix (cur e : Z) (rs : list Z) : bool :=
+  match rs with
+  | [] => true
+  | a :: b :: t => (a =? cur) && (a <? b) && (b <=? e) && tiles_prefix b e t
+  | _ => false
+  end.
+
+(* [count; s0; e0; ...] ++ rest *)
+Definition take_record (out : list Z) : option (Z * list Z * list Z) :=
+  match out with
+  | cnt :: t =>
+      if cnt <? 0 then None else
+      let '(r, rest) := take (2 * cnt) t in
+      if zlength r =? 2 * cnt then Some (cnt, r, rest) else None
+  | [] => None
+  end.
+
+Definition seq_bounds (k a b : Z) : Z * Z := if k =? 0 then (0, a) else (a, b).
+
+Fixpoint parse_bounds (n : nat) (l : list Z) : list (Z * Z) * list Z :=
+  match n with
+  | O => ([], l)
+  | S n' =>
+      match l with
+      | k :: a :: b :: t => let '(bs, r) := parse_bounds n' t in (seq_bounds k a b :: bs, r)
+      | _ => ([], [])
+      end
+  end.
+
+Definition whole (lo hi : Z) (r : list Z) : bool := tiles lo hi r (S (length r)).
+
+Fixpoint judge_steps (bs : list (Z * Z)) (steps out : list Z) : list Z :=
+  match steps with
+  | i :: stop :: j :: pos :: t =>
+      match take_record out with
+      | None => [0; 8]
+      | Some (cnt, r, out1) =>
+          let '(lo, hi) := nth (Z.to_nat i) bs (0, 0) in
+          if (stop <=? 0) && negb (whole lo hi r) then [0; 3]            (* a complete traversal is not the partition *)
+          else if (1 <=? stop) && negb ((whole lo hi r && (cnt <=? stop)) || (tiles_prefix lo hi r && (cnt =? stop)))
+          then [0; 4]                                                    (* a traversal left with break is not a prefix of it *)
+          else if (0 <=? j) && (0 <=? pos) && (pos <? cnt) then
+            match take_record out1 with
+            | None => [0; 8]
+            | Some (_, r2, out2) =>
+                let '(lo2, hi2) := nth (Z.to_nat j) bs (0, 0) in
+                if whole lo2 hi2 r2 then judge_steps bs t out2 else [0; 5]   (* nested traversal *)
+            end
+          else judge_steps bs t out1
+      end
+  | _ => match out with [] => [1] | _ => [0; 8] end
+  end.
+
+Fixpoint judge_reps (n : Z) (reps : nat) (out : list Z) : list Z :=
+  match reps with
+  | O => match out with [] => [1] | _ => [0; 8] end
+  | S r =>
+      match take_record out with
+      | None => [0; 8]
+      | Some (_, rs, out1) => if whole 0 n rs then judge_reps n r out1 else [0; 6]
+      end
+  end.
+
+Definition far (x : Z) : bool := Z.abs x >? 1099511627776.
+
 Definition judge_c20_batch (io : list Z) : list Z :=
   match io with
+  | 2 :: nseq :: nsteps :: rest =>
+      if (nseq <? 0) || (nseq >? 16) || (nsteps <? 0) then [1] else
+      let '(bs, rest1) := parse_bounds (Z.to_nat nseq) rest in
+      let '(steps, out) := take (4 * nsteps) rest1 in
+      if existsb (fun b => far (fst b) || far (snd b)) bs then [1] else judge_steps bs steps out
+  | 3 :: n :: reps :: out =>
+      if far n || (reps <? 0) || (reps >? 16) then [1] else judge_reps n (Z.to_nat reps) out
   | mode :: a :: b :: rs =>
       if (Z.abs a >? 1099511627776) || (Z.abs b >? 1099511627776) then [1]
       else if mode =? 0 then (if tiles 0 a rs (S (length rs)) then [1] else [0; 1])
@@ -237,6 +314,18 @@ Definition judge_c20_file (io : list Z) : list Z :=
               else if negb (status =? 0) then [0; 13]
               else if negb ((k =? end_ - start) && (zlength delivered =? k)) then [0; 14]
               else if negb (sub_sorted delivered expected) then [0; 15] else [1]
+            else if mode =? 3 then
+              (* start epochs through one Batches value: every epoch delivers every line *)
+              if (start <? 0) || (start >? 16) then [1]
+              else if negb (status =? 0) then [0; 16]
+              else if negb (lines_eqb delivered (sort_lines (concat (repeat expected (Z.to_nat start))))) then [0; 21] else [1]
+            else if mode =? 4 then
+              (* a session over windows that partition [0,n), whatever the order of the steps *)
+              let cuts := filter (fun c => negb (c =? 0))
+                            [Z.land start 65535; Z.land (Z.shiftr start 16) 65535; Z.land (Z.shiftr start 32) 65535] in
+              if negb (tiles_prefix 0 n (concat (map (fun p => [fst p; snd p]) (combine (0 :: cuts) (cuts ++ [n]))))) then [1]
+              else if negb (status =? 0) then [0; 16]
+              else if negb (lines_eqb delivered expected) then [0; 20] else [1]
             else
               if negb (status =? 0) then [0; 16]
               else if negb (lines_eqb delivered expected) then [0; 17] else [1]
